@@ -91,8 +91,9 @@ BidiCfg ==
      !.maps = << [name |-> "M1", keys |-> <<>>,
                   axes |-> [ABS_X |-> [AxisDflt EXCEPT !.cc = 1, !.ccNeg = 2, !.offNeg = 1, !.bidi = TRUE],
                             ABS_Y |-> [AxisDflt EXCEPT !.cc = 3, !.ccNeg = 4, !.off = 2, !.bidi = TRUE, !.centre = TRUE,
-                                                       !.flip = TRUE]]] >>,
-     !.axinfo = [ABS_X |-> [min |-> -8, max |-> 7], ABS_Y |-> [min |-> 0, max |-> 8]]]
+                                                       !.flip = TRUE],
+                            ABS_Z |-> [AxisDflt EXCEPT !.cc = 5, !.ccNeg = 6, !.bidi = TRUE]]] >>,     \* unsigned, no centre zone
+     !.axinfo = [ABS_X |-> [min |-> -8, max |-> 7], ABS_Y |-> [min |-> 0, max |-> 8], ABS_Z |-> [min |-> 0, max |-> 10]]]
 
 \* C08: a hat, an unsigned flipped 9-level stick, a signed stick without negative note and an unsigned
 \* trigger without negative note (its rest position 0 is the unassigned side)
@@ -109,6 +110,22 @@ AKeyCfg ==
      !.axinfo = [ABS_HAT0X |-> [min |-> -1, max |-> 1], ABS_Z |-> [min |-> 0, max |-> 8],
                  ABS_RX |-> [min |-> -4, max |-> 4], ABS_GAS |-> [min |-> 0, max |-> 8]]]
 
+\* C01 / C02 / C08 across mappings: the same axes emulate keys in both mappings, with other notes, other channel
+\* offsets and - in the second - no note on the negative side: an emulated key held through a mapping switch
+AKeyMapCfg ==
+  [BaseCfg EXCEPT
+     !.actions = Restrict(StateActs, {"KEY_F2", "KEY_F11", "KEY_F12"}),
+     !.maps = << [name |-> "M1", keys |-> <<>>,
+                  axes |-> [ABS_HAT0X |-> [AxisDflt EXCEPT !.type = "key", !.note = 60, !.noteNeg = 62, !.offNeg = 3,
+                                                           !.bidi = TRUE, !.dzn = 0],
+                            ABS_Z |-> [AxisDflt EXCEPT !.type = "key", !.note = 64, !.noteNeg = 65, !.bidi = TRUE,
+                                                       !.flip = TRUE, !.dzn = 0]]],
+                 [name |-> "M2", keys |-> <<>>,
+                  axes |-> [ABS_HAT0X |-> [AxisDflt EXCEPT !.type = "key", !.note = 61, !.off = 1, !.dzn = 0],
+                            ABS_Z |-> [AxisDflt EXCEPT !.type = "key", !.note = 65, !.noteNeg = 64, !.off = 2, !.bidi = TRUE,
+                                                       !.flip = TRUE, !.dzn = 0]]] >>,
+     !.axinfo = [ABS_HAT0X |-> [min |-> -1, max |-> 1], ABS_Z |-> [min |-> 0, max |-> 8]]]
+
 \* C06 (model level): one axis of each transmitting kind on small ranges
 AxisCfg ==
   [BaseCfg EXCEPT
@@ -123,6 +140,7 @@ AxisCfg ==
 MCCfg == CASE Variant = "keys" -> KeysCfg
            [] Variant = "bidi" -> BidiCfg
            [] Variant = "akey" -> AKeyCfg
+           [] Variant = "akeymap" -> AKeyMapCfg
            [] Variant = "axis" -> AxisCfg
            [] Variant = "collide" -> CollideCfg
            [] Variant = "arith" -> ArithCfg
